@@ -118,6 +118,8 @@ func init() {
 			{Name: "readers", Race: true, QShards: 2, TShards: 4, Run: c13Readers},
 			{Name: "parallel", Race: true, Run: sequtilParallel("pack")},
 			firstCallUnit(firstSequtilPack),
+			firstParallelUnit(parSequtilPack),
+			reuseUnit(reusePack),
 		},
 	})
 	register(&Property{
@@ -140,6 +142,8 @@ func init() {
 			}},
 			{Name: "parallel", Race: true, Run: sequtilParallel("translate")},
 			firstCallUnit(firstSequtilAmino),
+			firstParallelUnit(parSequtilAmino),
+			reuseUnit(reuseAmino),
 		},
 	})
 }
@@ -832,6 +836,38 @@ func c14FramePanics(c *Ctx) {
 		idx++
 	}
 	c.Exhaustive("framepanics: a non-ACGT byte at every index of sequences of every length 0..24")
+	// the same at the ends and in the middle of very long sequences (frames handled in parallel, in blocks, …)
+	long := []int{1<<16 + 1, 1 << 20, 1<<20 + 1, 1<<20 + 5}
+	if c.Thorough {
+		long = append(long, 1<<22+2, 3<<20)
+	}
+	for _, n := range long {
+		c.Case(idx, func(k *K) {
+			r := k.Rand()
+			base := randSeq(r, []byte(dna8), n)
+			for _, pos := range []int{0, 1, 2, 3, 4, n / 2, n/2 + 1, n - 5, n - 4, n - 3, n - 2, n - 1} {
+				s := append([]byte{}, base...)
+				s[pos] = pick(r, []byte{'N', 'n', 0, 0xff, 'u'})
+				covered := false
+				for f := 0; f < 3; f++ {
+					if pos >= f && pos < f+(n-f)/3*3 {
+						covered = true
+					}
+				}
+				p := expectPanic(func() { sequtil.TranslateReadingFrames(s) })
+				if covered != p {
+					k.Input("length", n)
+					k.Input("index", pos)
+					k.Failf(map[bool]string{true: "missing-panic", false: "unexpected-panic"}[covered], "TranslateReadingFrames on %d bases with %q at index %d: panicked = %v, want %v", n, s[pos], pos, p, covered)
+					return
+				}
+				k.Count("frame_bad_base_panics_long", 1)
+				k.Evals(1)
+			}
+			k.Nontrivial([]byte(fmt.Sprint("framepanics-long", n)))
+		})
+		idx++
+	}
 }
 
 func c14AminoName(c *Ctx) {
